@@ -320,6 +320,18 @@ Proof.
   rewrite Hop in Hm, Hdom |- *; cbv beta iota zeta in Hm, Hdom |- *. split_andb.
   rewrite forbes_genome_is_per_base in Hm; [exact Hm|apply genome_of_ok; assumption].
 Qed.
+(* deep multisets given with multiplicities: the correspondence evaluates the weighted functions, which Proofs/C08_big.v
+   proves equal to the models' outputs on the expanded multiset *)
+Lemma link_pileup_big : k_op c = 21 -> spec_ok c = true.
+Proof. intros Hop. open_case Hop Hdom Hm. apply andb_true_iff. split; assumption. Qed.
+Lemma link_mask_big : k_op c = 22 -> spec_ok c = true.
+Proof. intros Hop. open_case Hop Hdom Hm. apply andb_true_iff. split; assumption. Qed.
+Lemma link_merge_big : k_op c = 23 -> spec_ok c = true.
+Proof. intros Hop. open_case Hop Hdom Hm. apply andb_true_iff. split; assumption. Qed.
+Lemma link_count_overlap_big : k_op c = 24 -> spec_ok c = true.
+Proof.
+  intros Hop. open_case Hop Hdom Hm. apply andb_true_iff. split; [assumption|]. apply andb_true_iff. split; assumption.
+Qed.
 End Link.
 
 (* ---------- every case class at once ---------- *)
@@ -336,7 +348,9 @@ Proof.
     | apply (link_unique_intersect c Hdom Hm Hop) | apply (link_clip c Hdom Hm Hop) | apply (link_extend c Hdom Hm Hop)
     | apply (link_jaccard_geom c Hdom Hm Hop) | apply (link_geom_pileup c Hdom Hm Hop) | apply (link_geom_mask c Hdom Hm Hop)
     | apply (link_geom_merge c Hdom Hm Hop) | apply (link_jaccard_stream c Hdom Hm Hop) | apply (link_forbes_stream c Hdom Hm Hop)
-    | apply (link_jaccard_genome c Hdom Hm Hop) | apply (link_forbes_genome c Hdom Hm Hop) ].
+    | apply (link_jaccard_genome c Hdom Hm Hop) | apply (link_forbes_genome c Hdom Hm Hop)
+    | apply (link_pileup_big c Hdom Hm Hop) | apply (link_mask_big c Hdom Hm Hop) | apply (link_merge_big c Hdom Hm Hop)
+    | apply (link_count_overlap_big c Hdom Hm Hop) ].
 Qed.
 
 (* history: the stream route as it was before a68b397 raised on an interval set without entries, so it could not return
